@@ -57,6 +57,10 @@ var shapes = map[string]shape{
 	"nd.test.":       {kind: "nodata", soaTTL: 300, soaMin: 10},
 	"ndlow.test.":    {kind: "nodata", soaTTL: 5, soaMin: 300, ad: true},
 	"nosoa.test.":    {kind: "nodata-nosoa"},
+	// Incomplete answers: a referral (name servers in the authority section,
+	// no SOA) and an alias chain that stops short, likewise without SOA.
+	"refer.test.":   {kind: "referral", ttls: []uint32{300}},
+	"cnshort.test.": {kind: "cname-nosoa", ttls: []uint32{300}},
 	"nx.test.":       {kind: "nx", soaTTL: 30, soaMin: 30},
 	"sf.test.":       {kind: "servfail", soaTTL: 300, soaMin: 300},
 	"sfbare.test.":   {kind: "servfail"},
@@ -248,6 +252,16 @@ func answer(req *dns.Msg) (resp *dns.Msg) {
 			resp.Rcode = dns.RcodeNameError
 		}
 	case "nodata-nosoa":
+	case "referral", "cname-nosoa":
+		if kind == "cname-nosoa" {
+			resp.Answer = append(resp.Answer, &dns.CNAME{
+				Hdr:    dns.RR_Header{Name: q.Name, Rrtype: dns.TypeCNAME, Class: q.Qclass, Ttl: sh.ttls[0]},
+				Target: "elsewhere.test.",
+			})
+		}
+		resp.Ns = append(resp.Ns, &dns.NS{
+			Hdr: dns.RR_Header{Name: "test.", Rrtype: dns.TypeNS, Class: q.Qclass, Ttl: sh.ttls[0]}, Ns: "ns.elsewhere.test.",
+		})
 	case "nx":
 		resp.Rcode = dns.RcodeNameError
 		resp.Ns = append(resp.Ns, soa())
@@ -488,6 +502,16 @@ func optFlagsOnWire(m *dns.Msg) string {
 	}
 
 	return fmt.Sprintf("%#04x", opt.Hdr.Ttl&0x7f00)
+}
+
+func hasType(rrs []dns.RR, t uint16) bool {
+	for _, rr := range rrs {
+		if rr.Header().Rrtype == t {
+			return true
+		}
+	}
+
+	return false
 }
 
 // ---- stacks ----
@@ -1031,7 +1055,9 @@ func run(s *kernel.Sim, prop, cfg string) {
 		switch {
 		case fresh.Truncated:
 			cacheable = false
-		case fresh.Rcode == dns.RcodeSuccess && len(fresh.Answer) == 0:
+		case fresh.Rcode == dns.RcodeSuccess && !hasType(fresh.Answer, qtype):
+			// No data of the type asked for (aliases alone are none):
+			// complete only with the zone's SOA.
 			hasSOA := false
 			for _, rr := range fresh.Ns {
 				if rr.Header().Rrtype == dns.TypeSOA {
